@@ -26,7 +26,8 @@ COMPONENTS = {
 
 
 def gen_case(tp, tier):
-    feat = {'tempo_clocks': True, 'sends': True, 'odd_deltas': tp.draw(3) == 0}
+    feat = {'tempo_clocks': True, 'sends': True, 'bind': True,
+            'odd_deltas': tp.draw(3) == 0}
     prog = rprog.gen(tp, feat, tier)
     # main-thread sends (outside any routine), interleaved with sleeps
     drv = []
@@ -532,6 +533,14 @@ def run_case(case, tape, ctx):
         return W.result(viol, agg, outcome=rt['outcome'])
     check_rt(case, rt, viol, stats)
     check_nrt(case, nrt, viol, stats, False)
+    nb = sum(1 for r in case['prog']['routines'] for st in r['body']
+             if st[0] == 'bundle' and len(st) > 3)
+    if nb:
+        stats['bind-block-bundles'] = nb
+        nz = sum(1 for r in case['prog']['routines'] for st in r['body']
+                 if st[0] == 'bundle' and len(st) > 3 and st[1] == 0)
+        if nz:
+            stats['bind-block-latency-zero'] = nz
     # the logical time a routine sends at is the one the program implies
     # (independent model), in both worlds
     model = rprog.Model(case['prog']).run()
